@@ -1348,6 +1348,40 @@ func (c *FnCtx) evalSlice(env *Env, x *ast.SliceExpr) Val {
 	return Val{}
 }
 
+// embeddedAddr: the receiver of a promoted pointer-receiver method, p.M() with M declared on an
+// embedded struct: the interior address &p.E1.E2… (or the embedded pointer itself when the last
+// embedded field is a pointer).  ok is false when the path does not start from a pointer.
+func (c *FnCtx) embeddedAddr(env *Env, base Val, idx []int, n ast.Node) (Val, bool) {
+	cur := base
+	for k, i := range idx {
+		pt, isPtr := c.subst(cur.Typ).Underlying().(*types.Pointer)
+		if !isPtr {
+			return Val{}, false
+		}
+		_, st, ok := c.structOf(pt.Elem())
+		if !ok {
+			return Val{}, false
+		}
+		f := st.Field(i)
+		last := k == len(idx)-1
+		if _, fieldIsPtr := c.subst(f.Type()).Underlying().(*types.Pointer); fieldIsPtr {
+			c.safe(env.st, "nil", not(eq(cur.T, "0")), n)
+			cur = c.readField(env.st, cur.T, pt.Elem(), f)
+			if last {
+				return cur, true
+			}
+			continue
+		}
+		if last {
+			c.safe(env.st, "nil", not(eq(cur.T, "0")), n)
+			return Val{T: c.interiorAddr(cur.T, pt.Elem(), f), Typ: types.NewPointer(f.Type())}, true
+		}
+		// an embedded struct value in the middle of the path: continue from its interior address
+		cur = Val{T: c.interiorAddr(cur.T, pt.Elem(), f), Typ: types.NewPointer(f.Type())}
+	}
+	return Val{}, false
+}
+
 // addrOf evaluates &x.
 func (c *FnCtx) addrOf(env *Env, x ast.Expr, n ast.Node) Val {
 	x = unparen(x)
